@@ -10,7 +10,14 @@ fn main() {
     let rt = tokio::runtime::Builder::new_multi_thread().worker_threads(8).enable_all().build().unwrap();
     match cmd.as_str() {
         "replay-selector" => rt.block_on(selector::replay()),
-        "replay-membership" => rt.block_on(membership::replay()),
+        // paused clock on one thread: a timeout fires only when every task is idle, so "the watcher did not
+        // publish" is a deterministic observation and not a matter of load
+        "replay-membership" => tokio::runtime::Builder::new_current_thread()
+            .enable_all()
+            .start_paused(true)
+            .build()
+            .unwrap()
+            .block_on(membership::replay()),
         other => {
             eprintln!("unknown command {other:?}");
             std::process::exit(2);
